@@ -19,13 +19,24 @@
 (*   nint n is -1-n) <<"bstr", bytes>> <<"tstr", bytes>> <<"arr", seq>>    *)
 (*   <<"map", seq of <<key, value>> >> <<"bool", b>> <<"null">>            *)
 (*   <<"f32", bytes4>> <<"f64", bytes8>>                                   *)
-(* plus two MessagePack-only kinds that are only printed (Plain = FALSE):  *)
-(*   <<"ext", type, bytes>>  extension object, type = the raw type byte    *)
-(*                           0..255 (0..127 application-specific,          *)
-(*                           128..255 = the signed types -128..-1 that the *)
-(*                           specification reserves for predefined types)  *)
-(*   <<"ts", bytes>>         the predefined Timestamp type (-1): payload   *)
-(*                           of 4, 8 or 12 bytes                           *)
+(* Extension objects.  The first two components of every value are always  *)
+(* a kind/payload pair that harness/common/binval.hpp understands or a     *)
+(* kind it does not know (then Plain = FALSE); further components are      *)
+(* annotations that binval.hpp ignores and Plain / MayRefuse read:         *)
+(*   <<"bstr", bytes, "ext", type>>   ext object of application type       *)
+(*                           0..127: jsoncons image "byte_string" (tag ext *)
+(*                           and the type are not compared by binval.hpp)  *)
+(*   <<"uint", bs, "ts32">>  Timestamp (type -1, 4 bytes): jsoncons image  *)
+(*                           "uint64, tag seconds"                         *)
+(*   <<"tstr", digits, "ts64" | "ts96" | "ts96-neg-frac">>  Timestamp of   *)
+(*                           8 / 12 bytes: jsoncons image "string, tag     *)
+(*                           epoch_nanosecond" = the decimal number of     *)
+(*                           nanoseconds since the epoch,                  *)
+(*                           seconds * 10^9 + nanoseconds                  *)
+(*   <<"ts", bytes>>         Timestamp whose nanoseconds field is > 999999999 *)
+(*   <<"ext", type, bytes>>  ext object of a reserved type (type byte      *)
+(*                           128..255 = signed -128..-1) that is not a     *)
+(*                           timestamp                                     *)
 (***************************************************************************)
 EXTENDS Naturals, Sequences, FiniteSets
 
@@ -93,10 +104,48 @@ NanosTooLarge(d) ==
   CASE Len(d) = 8  -> Nanos64(d) > 999999999
     [] Len(d) = 12 -> d[1] > 59 \/ (d[1] = 59 /\ ((d[2] * 65536) + (d[3] * 256) + d[4]) > 10144255)    \* 0x9AC9FF
     [] OTHER -> FALSE
+\* the nanoseconds field (only used when it is <= 999999999 < 2^31)
+Nanos96(d) == (d[1] * 16777216) + (d[2] * 65536) + (d[3] * 256) + d[4]
+
+(* Decimal arithmetic on digit sequences (most significant first, <<>> = 0)*)
+(* for the 64-bit seconds field: TLC integers are 32-bit.                  *)
+RECURSIVE FlushCarry(_, _), MulAddR(_, _, _, _, _), DecOfBytes(_, _, _)
+FlushCarry(carry, acc) == IF carry = 0 THEN acc ELSE FlushCarry(carry \div 10, <<carry % 10>> \o acc)
+MulAddR(ds, k, m, carry, acc) == IF k = 0 THEN FlushCarry(carry, acc)
+                                 ELSE LET t == (ds[k] * m) + carry IN MulAddR(ds, k - 1, m, t \div 10, <<t % 10>> \o acc)
+MulAdd(ds, m, a) == MulAddR(ds, Len(ds), m, a, <<>>)             \* ds * m + a   (m <= 1000, a <= 1000)
+DecOfBytes(bs, k, acc) == IF k > Len(bs) THEN acc ELSE DecOfBytes(bs, k + 1, MulAdd(acc, 256, bs[k]))
+\* secs * 10^9 + add  (add <= 10^9), secs as decimal digits
+TimesBillionPlus(secs, add) ==
+  MulAdd(MulAdd(MulAdd(secs, 1000, add \div 1000000), 1000, (add \div 1000) % 1000), 1000, add % 1000)
+Ascii(ds) == IF ds = <<>> THEN <<48>> ELSE [k \in 1..Len(ds) |-> 48 + ds[k]]
+
+(* "Timestamp extension type": the instant is seconds + nanoseconds * 1e-9 *)
+(* since 1970-01-01 00:00:00 UTC; in timestamp 96 seconds is a SIGNED      *)
+(* 64-bit integer and nanoseconds is always a non-negative offset, so      *)
+(* (sec = -1, nsec = 1) is -999999999 ns.  doc/ref/msgpack/msgpack.md:     *)
+(* 4 bytes -> uint64 tagged seconds; 8 / 12 bytes -> string tagged         *)
+(* epoch_nanosecond.                                                       *)
+Timestamp(d) ==
+  IF Len(d) = 4 THEN <<"uint", StripZeros(d), "ts32">>                       \* timestamp 32: seconds in a 32-bit unsigned int
+  ELSE IF NanosTooLarge(d) THEN <<"ts", d>>
+  ELSE IF Len(d) = 8                                                         \* timestamp 64: nanoseconds in 30 bits, seconds in 34 bits
+    THEN LET secs == DecOfBytes(<<d[4] % 4, d[5], d[6], d[7], d[8]>>, 1, <<>>) IN
+         <<"tstr", Tuple(Ascii(TimesBillionPlus(secs, Nanos64(d)))), "ts64">>
+  ELSE LET sb == SubSeq(d, 5, 12)  ns == Nanos96(d) IN                       \* timestamp 96: nanoseconds uint32, seconds int64
+    IF sb[1] < 128 THEN <<"tstr", Tuple(Ascii(TimesBillionPlus(DecOfBytes(sb, 1, <<>>), ns))), "ts96">>
+    \* seconds = -(m + 1) with m = NOT sb:  total = -((m + 1) * 10^9 - ns) = -(m * 10^9 + (10^9 - ns)),  10^9 - ns >= 1
+    ELSE LET m == DecOfBytes(Tuple(Invert(sb)), 1, <<>>) IN
+         <<"tstr", <<45>> \o Tuple(Ascii(TimesBillionPlus(m, 1000000000 - ns))), IF ns = 0 THEN "ts96" ELSE "ts96-neg-frac">>
+
 (* An ext object of type ty with payload d.  The deserialization pseudo    *)
 (* code of the Timestamp section selects the timestamp layout by the data  *)
 (* length of the ext object (4, 8, 12), whatever ext format carried it.    *)
-ExtValue(ty, d) == IF ty = 255 /\ Len(d) \in {4, 8, 12} THEN <<"ts", d>> ELSE <<"ext", ty, d>>
+(* "Extension types": type 0..127 is application-specific, a negative type *)
+(* (byte 128..255) is reserved for predefined types.                       *)
+ExtValue(ty, d) == IF ty = 255 /\ Len(d) \in {4, 8, 12} THEN Timestamp(d)
+                   ELSE IF ty <= 127 THEN <<"bstr", d, "ext", ty>>
+                   ELSE <<"ext", ty, d>>
 
 RECURSIVE Item(_, _), Items(_, _, _, _), Pairs(_, _, _, _)
 
@@ -181,18 +230,29 @@ Decode(b) == Item(b, 1)
 (* Plain(v): every kind in v is understood by harness/common/binval.hpp    *)
 (* AND doc/ref/msgpack/msgpack.md documents its jsoncons image (nil ->     *)
 (* null, bool, int family -> int64/uint64, float -> double, str -> string, *)
-(* bin -> byte_string, array -> array, map -> object).  Objects have text  *)
-(* keys and one value per key, so maps with other keys or duplicate keys   *)
-(* are compared on the verdict only; ext objects and timestamps map to     *)
-(* tagged byte strings / tagged numbers that binval.hpp cannot state.      *)
+(* bin -> byte_string, ext 0..127 -> byte_string, timestamps -> uint64 /   *)
+(* string, array -> array, map -> object).  Objects have text keys and one *)
+(* value per key, so maps with other keys (also timestamp keys) or         *)
+(* duplicate keys are compared on the verdict only.                        *)
+(*                                                                         *)
+(* KnownDefect1 (SUSPECTED DEFECT 1, notes/C07-msgpack.md): a timestamp 96 *)
+(* with NEGATIVE seconds and NON-ZERO nanoseconds.  The specification adds *)
+(* the nanoseconds to the (signed) seconds; jsoncons' msgpack_parser.hpp   *)
+(* subtracts them when seconds < 0, e.g. c7 0c ff 00000001                 *)
+(* ffffffffffffffff (sec -1, nsec 1) should be "-999999999" and decodes to *)
+(* "-1000000001".  Excluded from the VALUE comparison only (the verdict is *)
+(* still compared) until the project lead decides on /repo; removing this  *)
+(* operator (KnownDefect1(v) == FALSE) makes the check red on that class.  *)
+KnownDefect1(v) == v[1] = "tstr" /\ Len(v) = 3 /\ v[3] = "ts96-neg-frac"
+TextKey(k) == k[1] = "tstr" /\ Len(k) = 2
 RECURSIVE Plain(_)
 Plain(v) ==
   CASE v[1] = "arr" -> \A k \in 1..Len(v[2]) : Plain(v[2][k])
-    [] v[1] = "map" -> /\ \A k \in 1..Len(v[2]) : v[2][k][1][1] = "tstr" /\ Plain(v[2][k][2])          \* text keys only
+    [] v[1] = "map" -> /\ \A k \in 1..Len(v[2]) : TextKey(v[2][k][1]) /\ Plain(v[2][k][2])              \* text keys only
                        /\ \A k, m \in 1..Len(v[2]) : k # m => v[2][k][1] # v[2][m][1]                  \* no duplicate keys
     [] v[1] = "ext" -> FALSE
     [] v[1] = "ts" -> FALSE
-    [] OTHER -> TRUE          \* nint from int 8..64 is >= -2^63 by construction
+    [] OTHER -> ~KnownDefect1(v)          \* nint from int 8..64 is >= -2^63 by construction
 
 (* MayRefuse(v): well-formed MessagePack that a conforming decoder may     *)
 (* still refuse; the verdict is not compared (the case is still replayed). *)
@@ -206,8 +266,8 @@ Plain(v) ==
 (*  R2 timestamps (type -1, 8 or 12 data bytes) whose nanoseconds field    *)
 (*     exceeds 999999999: "nanoseconds must not be larger than 999999999"  *)
 (*     constrains the producer; a decoder may reject or pass it on.        *)
-ReservedExt(v) == v[1] = "ext" /\ v[2] >= 128
-BadTimestamp(v) == v[1] = "ts" /\ NanosTooLarge(v[2])
+ReservedExt(v) == v[1] = "ext"
+BadTimestamp(v) == v[1] = "ts"
 RECURSIVE MayRefuse(_)
 MayRefuse(v) ==
   CASE v[1] = "arr" -> \E k \in 1..Len(v[2]) : MayRefuse(v[2][k])
